@@ -22,6 +22,7 @@ _INIT = Term("init", ())
 APPS = {
     "islice2": (lambda it: A.islice(it, 2), lambda it: itertools.islice(it, 2)),
     "islice13": (lambda it: A.islice(it, 1, 3), lambda it: itertools.islice(it, 1, 3)),
+    "islice022": (lambda it: A.islice(it, 0, 2, 2), lambda it: itertools.islice(it, 0, 2, 2)),
     "takewhile": (lambda it: A.takewhile(_pred, it), lambda it: itertools.takewhile(_pred, it)),
     "dropwhile": (lambda it: A.dropwhile(_pred, it), lambda it: itertools.dropwhile(_pred, it)),
     "zip_first": (lambda it: A.zip(it, [1, 2]), lambda it: zip(it, [1, 2])),
